@@ -27,7 +27,7 @@ let nextz () = z_of_int (next_int ())
 
 let words = [| "?"; "dfsd"; "sd"; "nc"; "vg"; "sdn"; "dfr8"; "df24"; "gr"; "grr"; "dfp"; "vgi"; "n"; "lut"; "nolut";
                "dfan"; "an"; "fl"; "fd"; "ol"; "od"; "nostrip"; "-"; "dfsdmeta"; "sdmeta"; "scale"; "strs"; "range"; "none";
-               "dfsdp"; "dfr8p"; "padok"; "dstrs"; "dname" |]
+               "dfsdp"; "dfr8p"; "padok"; "dstrs"; "dname"; "df24s"; "dfr8s" |]
 let show_tok = function
   | M.TI z -> string_of_int (int_of_z z)
   | M.TH b -> hex_of_bytes b
@@ -190,6 +190,7 @@ let () =
                            @ List.mapi (fun k p -> [M.TS M.w_dfp; M.TI (z_of_int k); M.TH p]) l)
          | "ann" ->
            let _w = next () in
+           let _decoy = next () in
            let n = next_int () in
            let l = List.init n (fun _ ->
              let ty = next () in
